@@ -126,4 +126,76 @@ theorem unescapeF_escape (a : Bool) (s : Bytes) : ∀ f, (escape a s).length ≤
 theorem unescape_escape (a : Bool) (s : Bytes) : unescape (escape a s) = s :=
   unescapeF_escape a s _ (Nat.le_refl _)
 
+
+/-! ### unescaping never lengthens (the C++ code writes into `String result(str.length())`) -/
+
+theorem utf8_length_le (v : Nat) : (utf8 v).length ≤ 4 := by
+  unfold utf8
+  split
+  · simp
+  · split
+    · simp
+    · split
+      · simp
+      · split <;> simp
+
+theorem scanU_nil : scanU [] = none := by decide
+
+theorem unescapeF_length_le : ∀ (f : Nat) (s : Bytes), (unescapeF f s).length ≤ s.length := by
+  intro f
+  induction f with
+  | zero => intro s; simp [unescapeF]
+  | succ f ih =>
+    intro s
+    cases s with
+    | nil => simp [unescapeF]
+    | cons c r =>
+      simp only [unescapeF]
+      by_cases hc : c ≠ 38
+      · rw [if_pos hc]; simp; exact ih r
+      rw [if_neg hc]
+      cases hidx : idxOf (· == 59) r with
+      | none => simp; exact ih r
+      | some k =>
+        simp only
+        have hk : k < r.length := by
+          have : ∀ (l : Bytes) (k : Nat), idxOf (· == 59) l = some k → k < l.length := by
+            intro l
+            induction l with
+            | nil => intro k h; simp [idxOf] at h
+            | cons b l ihl =>
+              intro k h
+              simp only [idxOf] at h
+              by_cases hb : (b == 59) = true
+              · simp [hb] at h; subst h; simp
+              · simp [hb] at h
+                obtain ⟨k', hk', rfl⟩ := h
+                have := ihl k' hk'
+                simp; omega
+          exact this r k hidx
+        have hdrop : (r.drop (k + 1)).length + (k + 1) = r.length := by simp; omega
+        have hrec := ih (r.drop (k + 1))
+        by_cases hh : (r.take k).head? = some 35
+        · rw [if_pos hh]
+          cases hs : scanU ((r.take k).drop 1) with
+          | none => simp; exact ih r
+          | some v =>
+            simp only [List.length_append, List.length_cons]
+            have hk2 : 2 ≤ k := by
+              by_cases h2 : 2 ≤ k
+              · exact h2
+              · exfalso
+                have : (r.take k).drop 1 = [] := by
+                  apply List.eq_nil_of_length_eq_zero
+                  simp; omega
+                rw [this, scanU_nil] at hs; cases hs
+            have := utf8_length_le v
+            omega
+        · rw [if_neg hh]
+          cases he : entityChar (r.take k) with
+          | none => simp; exact ih r
+          | some ch => simp only [List.length_cons]; omega
+
+theorem unescape_length_le (s : Bytes) : (unescape s).length ≤ s.length := unescapeF_length_le _ s
+
 end Nstd.Xml
